@@ -1417,6 +1417,65 @@ def _dynamic_slice_in_dim(operand, start_index, slice_size, axis=0):
     return term('dynamic_slice', operand, (start_index, alg.ROWS_REST), (slice_size, alg.ROWS_REST))
 
 
+def _slice_in_dim(operand, start_index, limit_index, stride=1, axis=0):
+    a = to_at(operand) if not _is_opaque(operand) else operand
+    ax = int(_dim(axis))
+    st = None if _dim(stride) == 1 else _dim(stride)
+    if isinstance(a, AT):
+        ax = ax % len(a.axes)
+        return a[(slice(None),) * ax + (slice(start_index, limit_index, st),)]
+    if ax != 0:
+        raise Top("slice_in_dim of an opaque array along an axis other than 0")
+    return a[slice(start_index, limit_index, st)]
+
+
+def _lax_slice(operand, start_indices, limit_indices, strides=None):
+    st = strides if strides is not None else (None,) * len(tuple(start_indices))
+    idx = tuple(slice(s_, l_, (None if (k_ is None or _dim(k_) == 1) else _dim(k_))) for s_, l_, k_ in zip(start_indices, limit_indices, st))
+    return (to_at(operand) if not _is_opaque(operand) else operand)[idx]
+
+
+def _dynamic_update_slice_in_dim(operand, update, start_index, axis=0):
+    if fz(axis) != 0:
+        raise Top("dynamic_update_slice_in_dim along an axis other than 0")
+    nd = None
+    for v in (update, operand):
+        if isinstance(v, AT):
+            nd = len(v.axes)
+            break
+    if nd is None:
+        raise Top("dynamic_update_slice_in_dim of arrays of unknown rank")
+    return _dynamic_update_slice(operand, update, (start_index,) + (0,) * (nd - 1))
+
+
+def _np_ndim(x):
+    if isinstance(x, (bool, np.bool_, int, float)):
+        return 0
+    if isinstance(x, AT):
+        return len(x.axes)
+    if isinstance(x, (list, tuple)):
+        return 1 + (_np_ndim(x[0]) if x else 0)
+    if isinstance(x, Poly):
+        return 0
+    raise Top(f"ndim of {type(x).__name__}")
+
+
+def _result_type(*xs):
+    """dtype of Python scalars only (kind 'b' / 'i' / 'f'); arrays are outside the vocabulary"""
+    kinds = []
+    for x in xs:
+        if isinstance(x, (bool, np.bool_)):
+            kinds.append('b')
+        elif isinstance(x, int):
+            kinds.append('i')
+        elif isinstance(x, float):
+            kinds.append('f')
+        else:
+            raise Top(f"result_type of {type(x).__name__}")
+    k = 'f' if 'f' in kinds else ('i' if 'i' in kinds else 'b')
+    return NS("dtype", kind=k, name={'b': 'bool', 'i': 'int32', 'f': 'float32'}[k])
+
+
 def _linearize(f, *primals):
     """jax.linearize(f, x) = (f(x), v -> jvp(f, (x,), (v,))[1])"""
     y = f(*primals)
@@ -1657,7 +1716,7 @@ def make_world_externals(world_ref):
     type_ = make_type(world_ref)
 
     jnp = NS("jnp",
-             array=_jnp_array, asarray=_jnp_array,
+             array=_jnp_array, asarray=_jnp_array, result_type=_result_type, minimum=(lambda a, b: _min(a, b)), maximum=(lambda a, b: _max(a, b)),
              stack=_jnp_stack_model, concatenate=symaware('concatenate', alg.jnp_concatenate),
              hstack=symaware('hstack', alg.jnp_hstack), column_stack=symaware('column_stack', alg.jnp_column_stack),
              vstack=symaware('vstack', alg.jnp_vstack),
@@ -1693,7 +1752,7 @@ def make_world_externals(world_ref):
              absolute=symaware('abs', alg.jnp_abs), full=_full, full_like=lambda a, v, **k: alg.jnp_zeros_like(a) + v,
              eye=_eye, identity=_eye, outer=_outer, inner=symaware('dot', alg.jnp_dot), vdot=symaware('dot', alg.jnp_dot),
              ravel=lambda a: to_at(a).flatten() if not _is_opaque(a) else term('.flatten', a),
-             shape=lambda a: (a.shape if hasattr(a, 'shape') else ()), ndim=lambda a: a.ndim, size=lambda a: a.size,
+             shape=lambda a: (a.shape if hasattr(a, 'shape') else ()), ndim=lambda a: (a.ndim if hasattr(a, 'ndim') else _np_ndim(a)), size=lambda a: a.size,
              swapaxes=lambda a, i, j: alg.jnp_moveaxis(alg.jnp_moveaxis(a, i, j), (j - 1 if j > i else j + 1), i) if abs(_dim(i) - _dim(j)) > 1 else alg.jnp_moveaxis(a, i, j),
              float_=_float, asarray_chkfinite=_jnp_array,
              max=opaque_fn('max'), min=opaque_fn('min'), greater=lambda a, b: lift(a) > lift(b),
@@ -1707,7 +1766,8 @@ def make_world_externals(world_ref):
               structure=pytree.tree_structure, transpose=pytree.tree_transpose,
               flatten=pytree.tree_flatten, unflatten=pytree.tree_unflatten)
     lax = NS("jax.lax", cond=lax_cond, scan=alg.lax_scan, fori_loop=lax_fori_loop, while_loop=lax_while_loop,
-             dynamic_slice=_dynamic_slice, dynamic_slice_in_dim=_dynamic_slice_in_dim, dynamic_update_slice=_dynamic_update_slice, select=_where,
+             dynamic_slice=_dynamic_slice, dynamic_slice_in_dim=_dynamic_slice_in_dim, slice_in_dim=_slice_in_dim, slice=_lax_slice,
+             dynamic_update_slice_in_dim=_dynamic_update_slice_in_dim, dynamic_update_slice=_dynamic_update_slice, select=_where,
              stop_gradient=stop_gradient_value, top_k=_top_k,
              with_sharding_constraint=lambda x, s: x)
     random = NS("jax.random", split=_random_split, uniform=_random_uniform, choice=_random_choice,
@@ -1754,9 +1814,13 @@ def make_world_externals(world_ref):
                        itemgetter=lambda *k: (lambda o: o[k[0]] if len(k) == 1 else tuple(o[x] for x in k)),
                        attrgetter=_attrgetter),
         'numpy': NS("numpy", asarray=_np_asarray, cumsum=_np_cumsum, ndarray=ExternalClass('np.ndarray'),
-                    sum=lambda a, *x, **k: _sum_builtin(list(a)), prod=lambda a, *x, **k: _math_prod(list(a)), array=_np_asarray),
+                    sum=lambda a, *x, **k: _sum_builtin(list(a)), prod=lambda a, *x, **k: _math_prod(list(a)), array=_np_asarray, ndim=_np_ndim,
+                    bool_=np.bool_),
         'math': NS("math", prod=_math_prod),
         'copy': NS("copy", deepcopy=lambda x: x, copy=lambda x: x),
+        'collections.abc': NS("collections.abc", Sequence=ExternalClass('Sequence', (list, tuple, range)), Mapping=ExternalClass('Mapping', (dict,)),
+                              Iterable=ExternalClass('Iterable', (list, tuple, dict, set, frozenset, range)), Callable=ExternalClass('Callable'),
+                              Hashable=ExternalClass('Hashable', (str, int, tuple, frozenset))),
         'itertools': NS("itertools", **{k: getattr(__import__('itertools'), k) for k in
                                         ('count', 'product', 'chain', 'repeat', 'zip_longest', 'accumulate', 'islice', 'starmap',
                                          'combinations', 'permutations', 'cycle', 'tee', 'takewhile', 'dropwhile')}),
